@@ -67,7 +67,7 @@ struct LoopCase {
     driver: String,
 }
 
-pub const DRIVERS: [&str; 10] = ["named-let", "callcc-backedge", "mutual-tail", "apply-tail", "do-nothing-but-builtins", "when-tail", "variadic-tail", "delay-force", "closure-threaded", "eval-tail"];
+pub const DRIVERS: [&str; 12] = ["named-let", "callcc-backedge", "mutual-tail", "apply-tail", "do-nothing-but-builtins", "when-tail", "variadic-tail", "delay-force", "closure-threaded", "eval-tail", "or-and-tail", "cond-case-let-tail"];
 
 /// The loop that runs the garbage expression n times. The back edge differs: a tail call of a
 /// named-let procedure; the re-entry of a continuation captured once (no procedure is entered
@@ -134,6 +134,22 @@ fn loop_definition(driver: &str, garbage: &str) -> Vec<String> {
         "eval-tail" => vec![
             format!("(define (%espin i n) (if (< i n) (begin {} (eval (list '%espin (+ i 1) n))) 'done))", garbage),
             "(define (%garbage-loop n) (%espin 0 n))".to_string(),
+        ],
+        // the back edge is the last operand of or / and, the last expression of unless (R7RS 3.5:
+        // all of them are tail positions when the form is)
+        "or-and-tail" => vec![
+            format!("(define (%orspin i n) (or (not (< i n)) (begin {} #f) (%orspin (+ i 1) n)))", garbage),
+            format!("(define (%andspin i n) (and (< i n) (begin {} #t) (%andspin (+ i 1) n)))", garbage),
+            format!("(define (%unlspin i n) (unless (not (< i n)) {} (%unlspin (+ i 1) n)))", garbage),
+            "(define (%garbage-loop n) (%orspin 0 n) (%andspin 0 n) (%unlspin 0 n) 'done)".to_string(),
+        ],
+        // ... the last expression of a cond clause, of an else clause, of a case clause, and the
+        // body of let* / letrec
+        "cond-case-let-tail" => vec![
+            format!("(define (%condspin i n) (cond ((not (< i n)) 'done) ((odd? i) {} (%condspin (+ i 1) n)) (else (%condspin (+ i 1) n))))", garbage),
+            format!("(define (%casespin i n) (case (if (< i n) 'go 'stop) ((go on) {} (%casespin (+ i 1) n)) (else 'done)))", garbage),
+            format!("(define (%letspin i n) (let* ((j (+ i 1)) (m n)) (letrec ((more (lambda () (< i m)))) (if (more) (begin {} (%letspin j m)) 'done))))", garbage),
+            "(define (%garbage-loop n) (%condspin 0 n) (%casespin 0 n) (%letspin 0 n) 'done)".to_string(),
         ],
         "apply-tail" => vec![
             format!("(define (%spin i n) (if (< i n) (begin {} (apply %spin (+ i 1) (list n))) 'done))", garbage),
@@ -422,7 +438,7 @@ pub fn run(tier: Tier, seed: u64, ev: &mut Evidence) -> Vec<Violation> {
                 cases.push(LoopCase {
                     kind: kind.to_string(),
                     live: *rng.pick(&[0u64, 10, 1000, 3000]),
-                    n: if *driver == "eval-tail" { (*n / 4).max(500) } else { *n },
+                    n: if *driver == "eval-tail" { (*n / 4).max(500) } else if *driver == "or-and-tail" || *driver == "cond-case-let-tail" { (*n / 2).max(500) } else { *n },
                     factor: 10,
                     forms: *rng.pick(&[1u64, 1, 3]),
                     knobs: Knobs { slot_order_seed: 0, heap_chunk: chunk },
